@@ -94,11 +94,11 @@ def judge_pair(ctx, A, B, tag):
 def cases(ctx):
     for n in range(1, ctx.pick(5, 6) + 1):
         yield "subsets", {"n": n, "seed": ctx.subseed("s", n)}
-    for i in range(ctx.pick(20, 400)):
+    for i in range(ctx.pick(100, 4000)):
         yield "random_pairs", {"seed": ctx.subseed("r", i), "n": 300}
-    for i in range(ctx.pick(40, 800)):
+    for i in range(ctx.pick(200, 8000)):
         yield "truncate", {"seed": ctx.subseed("t", i)}
-    for i in range(ctx.pick(60, 1200)):
+    for i in range(ctx.pick(300, 12000)):
         yield "generate", {"seed": ctx.subseed("g", i)}
 
 
